@@ -1,6 +1,7 @@
 import Pycoin.Driver.Core
 import Pycoin.DriverLib.TxText
 import Pycoin.Model.SignSecp
+import Pycoin.DriverLib.FastSecp
 /-!
 C05 ops.
 
@@ -56,7 +57,8 @@ def parseDigestsTx? (s : String) : Option (Nat → Digest) := do
 def showSigs (l : List (Option Bytes)) : String :=
   showList (fun o => match o with | none => "none" | some b => hx b) l
 
-def crypto : Crypto := secp256k1Crypto
+/-- the fast instance; `c05_fastcheck` compares it with `secp256k1Crypto` -/
+def crypto : Crypto := Pycoin.DriverLib.FastSecp.crypto
 
 /-! keychain scripts: actions separated by `,`
     `path:h160:pathhex:fp`   add_key_paths (h160 of the sub-key computed by the harness)
@@ -150,6 +152,23 @@ def handle : Handler := fun op args =>
           valid := fun i => p.2[i]? == some '1', ht := ht, subset := subset }
         signTx a tx us
     some (showE showTx (passes.foldl step (.ok tx)))
+  | "c05_fastcheck", [d, z, flip] => do
+    let d ← parseInt? d; let z ← parseInt? z
+    let a := secp256k1Crypto.sign d z
+    let b := crypto.sign d z
+    let sh := fun (r : Except Curve.Err (Int × Int)) => match r with | .ok (r, s) => s!"{r}.{s}" | .error e => e.tag
+    match a with
+    | .ok (r, s) =>
+      -- verify the signature (or a damaged one) for the right key with both instances
+      let s' := if flip = "1" then s + 1 else s
+      match Curve.mulG Pycoin.Gen.Curves.secp256k1 0 d with
+      | .ok Q =>
+        let va := secp256k1Crypto.verify Q z r s'
+        let vb := crypto.verify Q z r s'
+        let sv := fun (r : Except Curve.Err Bool) => match r with | .ok b => showBool b | .error e => e.tag
+        some s!"ok {sh a} {sh b} {sv va} {sv vb}"
+      | .error e => some ("err " ++ e.tag)
+    | .error _ => some s!"ok {sh a} {sh b} - -"
   | "c05_keychain", [script] => do
     match ← kcRun (script.splitOn ",") {} with
     | .error e => some ("err " ++ e.tag)
